@@ -14,8 +14,10 @@ variable [Rules]
 /-- two objects that differ at most in their type -/
 def SameButTy (b a : Obj) : Prop := ∃ t, b = { a with ty := t }
 
+omit [Rules] in
 theorem SameButTy.rfl' (a : Obj) : SameButTy a a := ⟨a.ty, rfl⟩
 
+omit [Rules] in
 theorem SameButTy.trans {a b c : Obj} (h1 : SameButTy b a) (h2 : SameButTy c b) : SameButTy c a := by
   obtain ⟨t1, rfl⟩ := h1
   obtain ⟨t2, rfl⟩ := h2
@@ -26,10 +28,12 @@ inductive TyRel : List Obj → List Obj → Prop where
   | nil : TyRel [] []
   | cons {a b : Obj} {as bs : List Obj} : SameButTy b a → TyRel as bs → TyRel (a :: as) (b :: bs)
 
+omit [Rules] in
 theorem TyRel.rfl' : ∀ l, TyRel l l
   | [] => .nil
   | a :: as => .cons (SameButTy.rfl' a) (TyRel.rfl' as)
 
+omit [Rules] in
 theorem TyRel.trans : ∀ {a b c : List Obj}, TyRel a b → TyRel b c → TyRel a c := by
   intro a b c h1
   induction h1 generalizing c with
@@ -39,6 +43,7 @@ theorem TyRel.trans : ∀ {a b c : List Obj}, TyRel a b → TyRel b c → TyRel 
     cases h2 with
     | cons h' hs' => exact .cons (h.trans h') (ih hs')
 
+omit [Rules] in
 theorem tyRel_updFirst (p : Obj → Bool) (t : ObjTy) : ∀ l, TyRel l (updFirst p (fun o => { o with ty := t }) l)
   | [] => .nil
   | a :: as => by
@@ -50,6 +55,7 @@ theorem tyRel_updFirst (p : Obj → Bool) (t : ObjTy) : ∀ l, TyRel l (updFirst
 /-- a predicate on objects that does not look at the type -/
 def TyBlind (q : Obj → Bool) : Prop := ∀ o t, q { o with ty := t } = q o
 
+omit [Rules] in
 theorem TyRel.filter_length {q : Obj → Bool} (hq : TyBlind q) {l l' : List Obj} (h : TyRel l l') :
     (l'.filter q).length = (l.filter q).length := by
   induction h with
@@ -59,6 +65,7 @@ theorem TyRel.filter_length {q : Obj → Bool} (hq : TyBlind q) {l l' : List Obj
     simp only [List.filter, hqb]
     split <;> simp [ih]
 
+omit [Rules] in
 theorem TyRel.any {q : Obj → Bool} (hq : TyBlind q) {l l' : List Obj} (h : TyRel l l') : l'.any q = l.any q := by
   induction h with
   | nil => rfl
@@ -66,11 +73,13 @@ theorem TyRel.any {q : Obj → Bool} (hq : TyBlind q) {l l' : List Obj} (h : TyR
     have hqb : q b = q a := by obtain ⟨t, rfl⟩ := hab; exact hq a t
     simp only [List.any, hqb, ih]
 
+omit [Rules] in
 theorem TyRel.length {l l' : List Obj} (h : TyRel l l') : l'.length = l.length := by
   induction h with
   | nil => rfl
   | cons _ _ ih => simp [ih]
 
+omit [Rules] in
 theorem TyRel.mem {l l' : List Obj} (h : TyRel l l') {b : Obj} (hb : b ∈ l') : ∃ a, a ∈ l ∧ SameButTy b a := by
   induction h with
   | nil => cases hb
@@ -82,7 +91,9 @@ theorem TyRel.mem {l l' : List Obj} (h : TyRel l l') {b : Obj} (hb : b ∈ l') :
 
 def realDefOf (s : Sym) (o : Obj) : Bool := o.isDefinition && !o.isTentative && o.sym == s
 
+omit [Rules] in
 theorem tyBlind_isTentOf (s : Sym) : TyBlind (isTentOf s) := fun _ _ => rfl
+omit [Rules] in
 theorem tyBlind_realDefOf (s : Sym) : TyBlind (realDefOf s) := fun _ _ => rfl
 
 /-- `scan_globals` without the type mutation -/
@@ -94,12 +105,14 @@ def scanPure (all : List Obj) : List Obj → List Obj
     else if rest.any (isTentOf var.sym) then scanPure all rest
     else var :: scanPure all rest
 
+omit [Rules] in
 theorem completeArray_same (o : Obj) : SameButTy (completeArray o) o := by
   unfold completeArray
   split
   · exact ⟨_, rfl⟩
   · exact SameButTy.rfl' o
 
+omit [Rules] in
 theorem scan_tyRel (all : List Obj) : ∀ (n : Nat) (l l' : List Obj), TyRel l l' → l.length ≤ n →
     TyRel (scanPure all l) (scanLoop all n l') := by
   intro n
@@ -154,11 +167,13 @@ theorem scan_tyRel (all : List Obj) : ∀ (n : Nat) (l l' : List Obj), TyRel l l
         · simp only [if_true]
           exact ih as bs hrest hn'
 
+omit [Rules] in
 theorem scanCore_tyRel (gs : List Obj) : TyRel (scanPure gs gs) (scanCore gs) :=
   scan_tyRel gs gs.length gs gs (TyRel.rfl' gs) (Nat.le_refl _)
 
 /-! ### counting on `scanPure` -/
 
+omit [Rules] in
 theorem scanPure_notTent (all : List Obj) : ∀ l : List Obj,
     (scanPure all l).filter (fun o => !o.isTentative) = l.filter (fun o => !o.isTentative)
   | [] => rfl
@@ -173,16 +188,19 @@ theorem scanPure_notTent (all : List Obj) : ∀ l : List Obj,
         · simp [List.filter, ht, scanPure_notTent all as]
         · simp [List.filter, ht, scanPure_notTent all as]
 
+omit [Rules] in
 theorem isTentOf_tent {s : Sym} {o : Obj} (h : isTentOf s o = true) : o.isTentative = true := by
   unfold isTentOf at h
   simp only [Bool.and_eq_true] at h
   exact h.1
 
+omit [Rules] in
 theorem isTentOf_sym {s : Sym} {o : Obj} (h : isTentOf s o = true) : o.sym = s := by
   unfold isTentOf at h
   simp only [Bool.and_eq_true, beq_iff_eq] at h
   exact h.2
 
+omit [Rules] in
 /-- of the tentative definitions of one name, `scanPure` keeps at most as many as there are -/
 theorem scanPure_tent_le (all : List Obj) (s : Sym) : ∀ l : List Obj,
     ((scanPure all l).filter (isTentOf s)).length ≤ (l.filter (isTentOf s)).length
@@ -206,6 +224,7 @@ theorem scanPure_tent_le (all : List Obj) (s : Sym) : ∀ l : List Obj,
           · simp only [List.filter, hp]; simp; omega
           · simp only [List.filter, hp]; simp; omega
 
+omit [Rules] in
 /-- ... and at most one -/
 theorem scanPure_tent_le_one (all : List Obj) (s : Sym) : ∀ l : List Obj,
     ((scanPure all l).filter (isTentOf s)).length ≤ 1
@@ -239,6 +258,7 @@ theorem scanPure_tent_le_one (all : List Obj) (s : Sym) : ∀ l : List Obj,
             rw [List.filter_cons_of_pos hp, List.length_cons, h1]
             exact Nat.le_refl _
 
+omit [Rules] in
 /-- a real definition of the name makes every tentative one redundant -/
 theorem scanPure_tent_none (all : List Obj) (s : Sym) (hreal : all.any (realDefOf s) = true) : ∀ l : List Obj,
     (scanPure all l).filter (isTentOf s) = []
@@ -261,6 +281,7 @@ theorem scanPure_tent_none (all : List Obj) (s : Sym) (hreal : all.any (realDefO
           rw [isTentOf_sym hp] at hnr
           exact hnr hreal
 
+omit [Rules] in
 /-- without a real definition, one tentative definition survives -/
 theorem scanPure_tent_some (all : List Obj) (s : Sym) (hreal : all.any (realDefOf s) = false) : ∀ l : List Obj,
     l.any (isTentOf s) = true → (scanPure all l).any (isTentOf s) = true
